@@ -66,10 +66,14 @@ def cases(run: Run):
                 t = rng.randint(1, N - 1) * dt + rng.choice([-1, 1])
             else:
                 t = rng.randint(1, (N - 1) * dt)
-            if t in used:
-                continue
+            if t in used and rng.random() < 0.5:
+                continue  # otherwise: two impulses of the agent at one instant (both must be applied)
             used.add(t)
             imps.append({"id": iid, "t": t, "dv": [0.0, rng.choice([0.01, 0.05, -0.02]), 0.003], "frame": rng.choice(["eci", "ntw"]), "planned": rng.random() < 0.3})
+        if rng.random() < 0.25 and imps:
+            # a second impulse at the very instant of the first
+            im0 = imps[0]
+            imps.append({"id": len(imps), "t": im0["t"], "dv": [0.0, rng.choice([0.02, -0.03]), 0.001], "frame": rng.choice(["eci", "ntw"]), "planned": False})
         out.append({"op": "impulse", "start": start.isoformat(), "dt": dt, "N": N, "imps": imps})
     # starts on which whole fractions of a day make scenario times land exactly on step boundaries
     for start, dt, t in ((datetime(2021, 3, 30, 12, 0, 0), 300, 2700), (datetime(2021, 3, 30, 12, 0, 0), 60, 2700), (datetime(2021, 3, 30, 0, 0, 0), 675, 675),
@@ -421,6 +425,8 @@ def oracle(run: Run, c, impl):
                 fails.append(("impulse:time", f"impulse at +{im['t']} s was not applied in step {k} (or just after its boundary)"))
         planned = sum(1 for im in c["imps"] if im["planned"])
         run.count(f"impulses:{n}")
+        if len({im["t"] for im in c["imps"]}) < n:
+            run.count("impulses:coincident")
     return fails
 
 
